@@ -807,7 +807,10 @@ pub fn tokens(path: &str, out_dir: &str, thorough: bool, skip: usize) -> Result<
             });
             call("Model::set_user_input(text)", &mut || {
                 let _ = model.set_user_input(0, row, 2, text.clone());
-                model.evaluate();
+                // (column 1 still holds "=<text>": same reason as above)
+                if !text.contains(':') {
+                    model.evaluate();
+                }
                 let _ = model.get_formatted_cell_value(0, row, 2);
                 let _ = model.get_localized_cell_content(0, row, 2);
             });
